@@ -24,10 +24,11 @@ RULE = (
 )
 
 # JSON numbers: the same out-of-range quantities also as they arrive when the sender wrote them with a fraction or exponent
-OUT_INT = [INT_MIN - 1, INT_MAX + 1, 2**40, -(2**40), 2**63, float(INT_MAX + 1), float(INT_MIN - 1), 1e12]
+# (the last two have a fraction and stay outside the range when it is cut off: the control next to the known finding below)
+OUT_INT = [INT_MIN - 1, INT_MAX + 1, 2**40, -(2**40), 2**63, float(INT_MAX + 1), float(INT_MIN - 1), 1e12, INT_MAX + 1.5, INT_MIN - 1.5]
 OUT_INT_FRACTION = [INT_MAX + 0.5, INT_MIN - 0.5, INT_MAX + 0.25, INT_MIN - 0.75]
 OUT_UINT_FRACTION = [-0.5, UINT_MAX + 0.5, -0.25, -0.999]
-OUT_UINT = [-1, UINT_MAX + 1, 2**40, -(2**31), -1.0, float(UINT_MAX + 1), 1e12]
+OUT_UINT = [-1, UINT_MAX + 1, 2**40, -(2**31), -1.0, float(UINT_MAX + 1), 1e12, UINT_MAX + 1.5, -1.5]
 
 
 def null_only_union(sub, occ: str) -> bool:
@@ -56,6 +57,7 @@ def edits_for(sub, p: dict) -> List[str]:
         out.append("int-out-of-range-fraction")
     if int_or_null(t):
         out.append("int-out-of-range")   # `integer | null` is an integer property too
+        out.append("int-out-of-range-fraction")
     if t["kind"] == "reference" and t["name"] in m.enums and not m.enum_open(t["name"], True):
         out.append("enum-outside")
     if t["kind"] == "stringLiteral":
@@ -100,7 +102,7 @@ def replacement(sub, p: dict, edit: str, sel: int) -> Any:
         return pool[sel % len(pool)]
     if edit == "int-out-of-range-fraction":
         # numbers outside the range by less than one: cutting the fraction off would bring them inside
-        pool = OUT_INT_FRACTION if t["name"] == "integer" else OUT_UINT_FRACTION
+        pool = OUT_INT_FRACTION if (int_or_null(t) or t["name"]) == "integer" else OUT_UINT_FRACTION
         return pool[sel % len(pool)]
     if edit == "enum-outside":
         e = sub.model.enums[t["name"]]
